@@ -1,0 +1,30 @@
+//go:build verif
+// +build verif
+
+package io
+
+// Exports for the verification harness in /verif (build tag `verif` only; nothing here changes behaviour).
+
+// VerifSliceSize is sliceSize.
+func VerifSliceSize(slice []int, size int) int { return sliceSize(slice, size) }
+
+// VerifMakeHyperslab is makeHyperslab.
+func VerifMakeHyperslab(slice [][]int, dims []int) (offset, stride, count, block []uint) {
+	return makeHyperslab(slice, dims)
+}
+
+// VerifLockState probes the package lock that guards every call into the HDF5 library:
+// held = some goroutine holds it (shared or exclusive), exclusive = it is held by a writer.
+// TryLock succeeds only when nobody holds the lock; TryRLock succeeds only when no writer holds it
+// (it also fails while a writer is waiting, which is then reported as exclusive).
+func VerifLockState() (held bool, exclusive bool) {
+	if mu.TryLock() {
+		mu.Unlock()
+		return false, false
+	}
+	if mu.TryRLock() {
+		mu.RUnlock()
+		return true, false
+	}
+	return true, true
+}
